@@ -10,8 +10,8 @@ W="${SEED_WT:-/tmp/wt_seedtest_$$}"
 git -C /repo worktree add --detach "$W" HEAD -q || exit 9
 trap 'git -C /repo worktree remove --force "$W"; rm -rf "/tmp/qvout_$$"' EXIT
 cd "$W"
-PYTHONPATH="$W" timeout 900 /venv/bin/python "$S/demo.py" >/dev/null 2>&1; echo "demo clean exit=$?"
+[ -n "${SKIP_DEMO:-}" ] || { PYTHONPATH="$W" timeout 900 /venv/bin/python "$S/demo.py" >/dev/null 2>&1; echo "demo clean exit=$?"; }
 git apply "$S/patch.diff" || { echo "PATCH DOES NOT APPLY"; exit 8; }
-PYTHONPATH="$W" timeout 900 /venv/bin/python "$S/demo.py" >/dev/null 2>&1; echo "demo patched exit=$?"
+[ -n "${SKIP_DEMO:-}" ] || { PYTHONPATH="$W" timeout 900 /venv/bin/python "$S/demo.py" >/dev/null 2>&1; echo "demo patched exit=$?"; }
 cd "$V"
 QV_REPO="$W" QV_OUT="/tmp/qvout_$$" ./check "$P" --tier "$T" "$@" 2>&1 | grep "^VIOLATION\|^KNOWN\|^$P \[" | cut -c1-300 | sort | uniq -c | sort -rn | head -8
